@@ -6715,6 +6715,7 @@ int cgi_read_node_data(double node_id, char_33 data_type,
 
     if (strcmp(data_type, "MT") == 0) {
         *ndim = 0;
+        data[0] = NULL;   /* callers keep (and later free) what they find here */
         return CG_OK;
     }
 
@@ -6736,6 +6737,11 @@ int cgi_read_node_data(double node_id, char_33 data_type,
     else if (strcmp(data_type, "C1") == 0) data[0] = CGNS_NEW(char, size + 1);
     else if (strcmp(data_type, "X4") == 0) data[0] = CGNS_NEW(float, 2 * size);
     else if (strcmp(data_type, "X8") == 0) data[0] = CGNS_NEW(double, 2 * size);
+    else {
+        /* nothing was allocated: data[0] is not ours to write to */
+        cgi_error("Data type %s not supported for node data", data_type);
+        return CG_ERROR;
+    }
 
     /* read data */
     if (cgio_read_all_data_type(cg->cgio, node_id, data_type, data[0])) {
@@ -6766,6 +6772,7 @@ int cgi_read_node(double node_id, char_33 name, char_33 data_type,
 
     if (strcmp(data_type,"MT")==0) {
         *ndim = 0;
+        if (data_flag) data[0] = NULL;   /* callers keep (and later free) what they find here */
         return CG_OK;
     }
 
@@ -6790,6 +6797,11 @@ int cgi_read_node(double node_id, char_33 name, char_33 data_type,
     else if (strcmp(data_type,"C1")==0) data[0]=CGNS_NEW(char, size+1);
     else if (strcmp(data_type,"X4")==0) data[0]=CGNS_NEW(float, 2*size);
     else if (strcmp(data_type,"X8")==0) data[0]=CGNS_NEW(double, 2*size);
+    else {
+        /* nothing was allocated: data[0] is not ours to write to */
+        cgi_error("Data type %s not supported for node %s", data_type, name);
+        return CG_ERROR;
+    }
 
      /* read data */
     if (cgio_read_all_data_type(cg->cgio, node_id, data_type, data[0])) {
